@@ -2,6 +2,7 @@
 import json
 from .. import core
 from . import _gen
+from . import _c17_mut
 
 PAGES = 4096
 KINDS = ["iter", "iter_loop", "iter_constloop", "iter_loopaccum"]
@@ -347,6 +348,8 @@ def run(ctx):
             ctx.violation("broken", what, {"theorem_or_correspondence": ("impl != Qarray.Model on " + mismatches[0][0]) if mismatches else pr["file"],
                           "first_mismatch": mismatches[0] if mismatches else None, "coq_log": pr["log"][-1500:],
                           "known_class_failures": {s: w for s, (w, c) in seen_known.items()}}, no_input=True)
+    # extension L: the mutating entry points (set_shepof, dist_like, destroy/tracker, iter_loop_nb, elem_migrate)
+    _c17_mut.run_mut(ctx, quick, ctx.coq_properties("Properties/Properties_C17_mut.v"))
 
 
 def replay(ctx, path):
